@@ -94,13 +94,10 @@ impl TimeWindow {
 
         self.events.push_back(event);
 
-        while self
-            .events
-            .front()
-            .is_some_and(|e| e.metadata.timestamp < self.start_time)
-        {
-            self.events.pop_front();
-        }
+        // Events may arrive out of order, so a stale event can sit behind a
+        // younger one: evict by age wherever it is, not only at the front.
+        let start_time = self.start_time;
+        self.events.retain(|e| e.metadata.timestamp >= start_time);
         while self.events.len() > self.max_events {
             self.events.pop_front();
         }
